@@ -179,7 +179,7 @@ impl LayersData {
 
     pub(crate) fn from_vec(layers: Vec<LayerData>) -> Result<Self> {
         // TODO: Validate some properties
-        let parents = compute_parents(&layers);
+        let parents = compute_parents(&layers)?;
         Ok(LayersData { layers, parents })
     }
 }
@@ -297,25 +297,28 @@ fn parse_blend_mode(id: u16) -> Result<BlendMode> {
     }
 }
 
-fn compute_parents(layers: &[LayerData]) -> Vec<Option<u32>> {
+fn compute_parents(layers: &[LayerData]) -> Result<Vec<Option<u32>>> {
     let mut result = Vec::with_capacity(layers.len());
 
-    for id in 0..layers.len() {
-        let parent = {
-            let my_child_level = layers[id].child_level;
-            if my_child_level == 0 {
-                None
-            } else {
-                // Find first layer with a lower id and a lower child_level.
-                let mut parent_candidate = id - 1;
-                while layers[parent_candidate].child_level >= my_child_level {
-                    assert!(parent_candidate > 0);
-                    parent_candidate -= 1;
-                }
-                Some(parent_candidate as u32)
-            }
+    for (id, layer) in layers.iter().enumerate() {
+        let my_child_level = layer.child_level;
+        let parent = if my_child_level == 0 {
+            None
+        } else {
+            // Find the closest layer with a lower id and a lower child_level.
+            let parent_id = layers
+                .iter()
+                .take(id)
+                .rposition(|l| l.child_level < my_child_level)
+                .ok_or_else(|| {
+                    AsepriteParseError::InvalidInput(format!(
+                        "Layer {} has child level {} but no parent layer",
+                        id, my_child_level
+                    ))
+                })?;
+            Some(parent_id as u32)
         };
         result.push(parent);
     }
-    result
+    Ok(result)
 }
